@@ -1,6 +1,7 @@
 import TypstyleModel.Props.C07
 import TypstyleModel.Proofs.Tokens
 import TypstyleModel.Proofs.EndToEnd
+import TypstyleModel.Props.RouteM
 /-! C10 — literal content is preserved exactly (printer side; F4 — the post-pass strips blanks
 before a line feed inside a multi-line literal — is a genuine counterexample to the end-to-end
 statement and is a known finding). -/
@@ -78,5 +79,13 @@ theorem C10_literal_text_occurs_in_rendered_output (w : Nat) (d : Doc) (s : Stri
     (h : Atom.txt s t ∈ best w 0 [⟨0, .brk, d⟩]) :
     s.toList <:+: (pretty w d).toList :=
   render_infix _ _ h
+
+/-- T10.1 without a certificate (route M): for every expression tree of the covered fragment the
+rendered layout contains every literal (strings with all their blanks and line breaks, numbers,
+identifiers, booleans) character for character and in order, at every width and unit. -/
+theorem C10_fragment_literals_preserved (e : Env) (fuel : Nat) (ctx : Ctx) (n : ANode) (hx : isExpr n = true) (hq : inFrag n = true)
+    (d : Twin.Doc) (k k' : St) (h : ((knot e fuel).expr ctx n).run k = .ok (d, k')) (u w : Nat) :
+    litText (best w 0 [⟨0, .brk, d.fam u⟩]) = (specLit n).toList :=
+  (routeM_expr e fuel ctx n hx hq d k k' h u w).2.2.2.1
 
 end Typstyle
